@@ -27,6 +27,7 @@ func (pc *ProfController) NotImplemented(w http.ResponseWriter, r *http.Request)
 }
 
 func (pc *ProfController) ProfileTypes(w http.ResponseWriter, r *http.Request) {
+	defer tamePanic(w, r)
 	var req prof.ProfileTypesRequest
 	err := defaultParser(r, &req)
 	if err != nil {
@@ -56,6 +57,7 @@ func (pc *ProfController) ProfileTypes(w http.ResponseWriter, r *http.Request) {
 }
 
 func (pc *ProfController) LabelNames(w http.ResponseWriter, r *http.Request) {
+	defer tamePanic(w, r)
 	var req v1.LabelNamesRequest
 	err := defaultParser(r, &req)
 	if err != nil {
@@ -78,6 +80,7 @@ func (pc *ProfController) LabelNames(w http.ResponseWriter, r *http.Request) {
 }
 
 func (pc *ProfController) LabelValues(w http.ResponseWriter, r *http.Request) {
+	defer tamePanic(w, r)
 	var req v1.LabelValuesRequest
 	err := defaultParser(r, &req)
 	if err != nil {
@@ -99,6 +102,7 @@ func (pc *ProfController) LabelValues(w http.ResponseWriter, r *http.Request) {
 }
 
 func (pc *ProfController) SelectMergeStackTraces(w http.ResponseWriter, r *http.Request) {
+	defer tamePanic(w, r)
 	var req prof.SelectMergeStacktracesRequest
 	err := defaultParser(r, &req)
 	if err != nil {
@@ -119,6 +123,7 @@ func (pc *ProfController) SelectMergeStackTraces(w http.ResponseWriter, r *http.
 }
 
 func (pc *ProfController) SelectSeries(w http.ResponseWriter, r *http.Request) {
+	defer tamePanic(w, r)
 	var req prof.SelectSeriesRequest
 	err := defaultParser(r, &req)
 	if err != nil {
@@ -146,6 +151,7 @@ func (pc *ProfController) SelectSeries(w http.ResponseWriter, r *http.Request) {
 }
 
 func (pc *ProfController) MergeProfiles(w http.ResponseWriter, r *http.Request) {
+	defer tamePanic(w, r)
 	var req prof.SelectMergeProfileRequest
 	err := defaultParser(r, &req)
 	if err != nil {
@@ -166,6 +172,7 @@ func (pc *ProfController) MergeProfiles(w http.ResponseWriter, r *http.Request) 
 }
 
 func (pc *ProfController) Series(w http.ResponseWriter, r *http.Request) {
+	defer tamePanic(w, r)
 	var req prof.SeriesRequest
 	err := defaultParser(r, &req)
 	if err != nil {
@@ -186,6 +193,7 @@ func (pc *ProfController) Series(w http.ResponseWriter, r *http.Request) {
 }
 
 func (pc *ProfController) ProfileStats(w http.ResponseWriter, r *http.Request) {
+	defer tamePanic(w, r)
 	res, err := pc.ProfService.ProfileStats(r.Context())
 	if err != nil {
 		defaultError(w, 500, err.Error())
@@ -205,6 +213,7 @@ func (pc *ProfController) Settings(w http.ResponseWriter, r *http.Request) {
 }
 
 func (pc *ProfController) RenderDiff(w http.ResponseWriter, r *http.Request) {
+	defer tamePanic(w, r)
 	for _, param := range []string{"leftQuery", "leftFrom", "leftUntil", "rightQuery", "rightFrom", "rightUntil"} {
 		if len(r.URL.Query()[param]) == 0 || r.URL.Query()[param][0] == "" {
 			defaultError(w, 400, fmt.Sprintf("Missing required parameter: %s", param))
@@ -245,6 +254,7 @@ func (pc *ProfController) RenderDiff(w http.ResponseWriter, r *http.Request) {
 }
 
 func (pc *ProfController) AnalyzeQuery(w http.ResponseWriter, r *http.Request) {
+	defer tamePanic(w, r)
 	var req prof.AnalyzeQueryRequest
 	err := defaultParser(r, &req)
 	if err != nil {
